@@ -166,6 +166,24 @@ def windows(run, tier, table):
                     run.violation({"kind": "gamma_window_peak_misplaced", "order": order, "peak": peak, "width": w, "argmax": int(np.argmax(g))})
 
 
+def returned_arrays_are_the_callers(run):
+    """A caller may scale or overwrite the array a window function returned (it is the caller's): the next call, on the same
+    or on another instance, still returns the closed form."""
+    for cls in (filters.HannWindow, filters.HammingWindow, filters.BartlettWindow, filters.BlackmanWindow, filters.GammaWindow):
+        for w in (1, 8, 400):
+            inst = cls()
+            first = inst.get_impulse_response(w)
+            want = first.copy()
+            first *= 1234.5
+            first[:] = -1.0
+            run.evaluations += 1
+            for other in (inst, cls()):
+                again = other.get_impulse_response(w)
+                if again.shape != want.shape or not np.array_equal(again, want):
+                    run.violation({"kind": "window_depends_on_what_a_caller_did_to_an_earlier_result", "window": cls.__name__, "width": w})
+                    break
+
+
 def gamma_attributes(run):
     """order and peak are documented public attributes: the window follows their current values."""
     for (o1, p1, o2, p2) in ((4, 0.75, 2, 0.75), (4, 0.75, 6, 0.5), (2, 0.5, 5, 0.9), (3, 0.9, 3, 0.6)):
@@ -235,6 +253,7 @@ def run(tier, seed):
     wrapped_segments(run, tier, nprng)
     windows(run, tier, table)
     gamma_attributes(run)
+    returned_arrays_are_the_callers(run)
     helpers(run)
     run.exhaustive = True
     run.not_decided += ["'sums to 1 up to O(1/width)' and gauss_quant's 1e-6 accuracy are statements of real analysis: not in the "
